@@ -211,6 +211,7 @@ void scen_c05(mt_case * c) {
   if (g_unlocked) mt_label("notify_after_unlock");
   mt_hash(c->prog.p, c->prog.pos);
 
+  mt_allow_prelude = 1;
   mt_lib_start(c, &e, 0);
   MT_DIRTY(g_m); Z0(myth_mutex_init(&g_m, 0));
   for (int i = 0; i < ncv; i++) { MT_DIRTY(g_cv[i].cv); Z0(myth_cond_init(&g_cv[i].cv, 0)); }
